@@ -8,6 +8,8 @@ import (
 	"fmt"
 	"io"
 	"math/rand"
+	"reflect"
+	"strings"
 
 	"github.com/amzn/ion-go/ion"
 
@@ -128,7 +130,105 @@ func runReadChunk(k IOCase) string {
 	if base.err != got.err {
 		return fmt.Sprintf("final error differs from the one-piece read: %q vs %q", base.err, got.err)
 	}
+	// the same through Decoder.Decode, looking at the values only after the whole stream was decoded
+	// (what was handed out for an early value must not depend on how the rest arrived)
+	if base.err == "" && !(len(k.Chunks) == 2 && k.Chunks[1] == 1<<20 && k.Chunks[0]%2 == 1) { // (every other single split point)
+		d1 := decodeAllFmt(&chunkReader{data: data, failAt: -1})
+		d2 := decodeAllFmt(&chunkReader{data: data, chunks: k.Chunks, eofWith: k.EOFWith, failAt: -1})
+		if d1 != d2 {
+			return "Decoder.Decode results (examined after the stream ended) differ from the one-piece read: " + firstDiff(d1, d2)
+		}
+		s1 := skimFmt(&chunkReader{data: data, failAt: -1})
+		s2 := skimFmt(&chunkReader{data: data, chunks: k.Chunks, eofWith: k.EOFWith, failAt: -1})
+		if s1 != s2 {
+			return "a traversal that skips containers and leaves them early differs from the one-piece read: " + firstDiff(s1, s2)
+		}
+	}
 	return ""
+}
+
+// skimFmt navigates without reading everything: containers are alternately skipped and left after
+// their first child, so the readers' skip paths run across the chunk boundaries too.
+func skimFmt(r io.Reader) (out string) {
+	defer func() {
+		if rec := recover(); rec != nil {
+			out += "PANIC: " + ionx.PanicSite(rec)
+		}
+	}()
+	rd := ion.NewReader(r)
+	var sb strings.Builder
+	n := 0
+	var level func(depth int)
+	level = func(depth int) {
+		for rd.Next() {
+			n++
+			t := rd.Type()
+			fmt.Fprintf(&sb, "%d:%v", depth, t)
+			if fn, _ := rd.FieldName(); fn != nil && fn.Text != nil {
+				sb.WriteString(" " + *fn.Text)
+			}
+			switch t {
+			case ion.ListType, ion.SexpType, ion.StructType:
+				if !rd.IsNull() && n%2 == 0 {
+					if rd.StepIn() == nil {
+						if rd.Next() { // look at the first child only, then leave
+							fmt.Fprintf(&sb, " first=%v", rd.Type())
+							if ct := rd.Type(); (ct == ion.ListType || ct == ion.SexpType || ct == ion.StructType) && !rd.IsNull() && depth < 6 {
+								if rd.StepIn() == nil {
+									level(depth + 2)
+									rd.StepOut()
+								}
+							}
+						}
+						if err := rd.StepOut(); err != nil {
+							sb.WriteString(" stepout:" + err.Error())
+						}
+					}
+				}
+			case ion.StringType:
+				if s, err := rd.StringValue(); err == nil && s != nil {
+					fmt.Fprintf(&sb, " %q", *s)
+				}
+			case ion.IntType:
+				if b, err := rd.BigIntValue(); err == nil && b != nil {
+					sb.WriteString(" " + b.String())
+				}
+			}
+			sb.WriteString("\n")
+		}
+	}
+	level(0)
+	if err := rd.Err(); err != nil {
+		sb.WriteString("err: " + err.Error())
+	}
+	return sb.String()
+}
+
+func decodeAllFmt(r io.Reader) (out string) {
+	defer func() {
+		if rec := recover(); rec != nil {
+			out = "PANIC: " + ionx.PanicSite(rec)
+		}
+	}()
+	d := ion.NewDecoder(ion.NewReader(r))
+	var xs []interface{}
+	for {
+		x, err := d.Decode()
+		if err != nil {
+			out = "end: " + err.Error() + "\n"
+			break
+		}
+		xs = append(xs, x)
+	}
+	for i := range xs {
+		img, ok := imageOf(reflect.ValueOf(&xs[i]).Elem(), "", true)
+		if !ok {
+			out += "<no image>\n"
+			continue
+		}
+		out += model.Fmt(img) + "\n"
+	}
+	return out
 }
 
 func runReadFault(k IOCase) string {
